@@ -221,7 +221,9 @@ EXTRA = {
            "(nested_operand_stays_nested, confirmed on the real code, declared outside the property); Python slicing (Model/PySlice, slice_eq_pySlice, getRaw_constructed, o-pyslice correspondence); "
            "CodeRange.fqn is generated by py2lean and bridged (range_fqn_generated).",
     "C06": "Audit additions: every query on a foreign node raises KeyError (foreign_all_keyError, *_keyError_iff), chains are unique (chain_unique, exists_unique_chain; "
-           "NoRepeat necessary: chain_unique_needs_noRepeat), is_root characterised, queries_total; xpath strings can be followed back from the root to the very node (follow_getXpath, follow_steps_unique).",
+           "NoRepeat necessary: chain_unique_needs_noRepeat), is_root characterised, queries_total; xpath strings can be followed back from the root to the very node (follow_getXpath, follow_steps_unique). "
+           "Order additions (C06Order): is_ancestor is a strict order on the objects of a tree (isAncestor_irrefl / _trans / _asymm, the stored parent is an ancestor), the chain of an ancestor is a prefix "
+           "of the chain of the node (chain_prefix), get_ancestors(n) = [parent] + get_ancestors(parent), get_depth(n) = get_depth(parent) + 1 = len(get_ancestors(n)).",
     "C07": "q4 additions: findall_iff_match (n in findall iff match, the property's first sentence, from the tables), findall_exactly_matches / findall_nodup_nodes, "
            "xfind_first, sat_iff_segments (declarative reading of the documented semantics: one non-empty chain segment per step, longer than one only under //), "
            "sat_absolute_first, text_findall_iff_match (text level composed with the parser theorem).",
